@@ -1019,7 +1019,10 @@ class VerbatimEnvironment(NoCharSubEnvironment):
                         res = [end]
                     tex.pushTokens(res)
                     break
-            if len(tokens) >= endlength2:
+            # (only when invoked as a command: inside \begin{verbatim} the
+            # text \endverbatim is part of the content)
+            if self.macroMode == Environment.MODE_NONE and \
+               len(tokens) >= endlength2:
                 if tokens[-endlength2:] == endpattern2:
                     tokens = tokens[:-endlength2]
                     self.ownerDocument.context.pop(self)
